@@ -610,7 +610,9 @@ pub fn c15(c: &mut Ctx, b: &Budget) {
         }
         // typed extraction on every leaf kind
         for ty in ["u8", "u16", "u32", "u64", "i8", "i16", "i32", "i64", "bool", "text", "bytes"] {
-            let leaf = orig.subject();
+            // extract_subject recurses through node subjects (a node can be the subject of a node)
+            let mut leaf = orig.subject();
+            while leaf.is_node() { leaf = leaf.subject(); }
             let neg_unsigned = ty.starts_with('u') && matches!(leaf.as_leaf().map(|l| l.into_case()), Some(CBORCase::Negative(_)));
             if neg_unsigned {
                 // known dependency defect: unsigned extraction from a negative integer wraps around
@@ -650,7 +652,9 @@ fn extract_ok(e: &Envelope, ty: &str) -> Option<String> {
 
 /// what the stored leaf denotes, decoded by hand from its dCBOR bytes
 fn independent_extract(e: &Envelope, ty: &str) -> Option<String> {
-    let leaf = e.subject().as_leaf()?;
+    let mut inner = e.subject();
+    while inner.is_node() { inner = inner.subject(); }
+    let leaf = inner.as_leaf()?;
     let b = leaf.to_cbor_data();
     let (mt, ai) = (b[0] >> 5, b[0] & 31);
     let arg = |b: &[u8]| -> Option<(u128, usize)> {
